@@ -42,7 +42,22 @@ Eff(g, o) ==
             [] p = "neg" -> IF h >= 2 /\ w >= 2 THEN Pix(Tr(0, h - 2), 1, 2, w - 1) ELSE NA
             [] p = "int" -> Pix(Tr(0, 0), 1, 1, w)
             [] p = "intneg" -> Pix(Tr(0, h - 1), 1, 1, w)
-            [] p = "cols" -> IF w >= 2 THEN Pix(Tr(1, 0), 1, h, w - 1) ELSE NA)
+            [] p = "cols" -> IF w >= 2 THEN Pix(Tr(1, 0), 1, h, w - 1) ELSE NA
+            [] p = "full" -> Pix(Tr(0, 0), 1, h, w)                                           \* gb[:, :]
+            [] p = "rows" -> IF h >= 2 THEN Pix(Tr(0, 1), 1, h - 1, w) ELSE NA                \* gb[1:]  (a bare slice addresses rows)
+            [] p = "colint" -> Pix(Tr(0, 0), 1, h, 1)                                         \* gb[:, 0]
+            [] p = "pix" -> IF h >= 2 /\ w >= 3 THEN Pix(Tr(2, 1), 1, 1, 1) ELSE NA            \* gb[1, 2]
+            [] p = "pixneg" -> Pix(Tr(w - 1, h - 1), 1, 1, 1)                                 \* gb[-1, -1]
+            [] p = "rowcols" -> IF w >= 2 THEN Pix(Tr(1, 0), 1, 1, w - 1) ELSE NA)            \* gb[0, 1:]
+    [] o.op = "crop_region" ->        \* gb[region]: region = rectangle p.r = <<x0, y0, x1, y1>> in QUARTER pixels of this box's own pixel plane, handed over
+                                     \* as p.kind: pixel-plane geometry, world geometry, world bounding box, or another GeoBox.  Contract: the crop to the
+                                     \* region's pixel bounding box rounded outwards and clipped to the image, at least one pixel.
+         (LET tx == Max2(0, FloorDiv(p.r[1], 4)) ty == Max2(0, FloorDiv(p.r[2], 4))
+              ex == Min2(w, CeilDiv(p.r[3], 4)) ey == Min2(h, CeilDiv(p.r[4], 4)) IN
+          IF tx >= w \/ ty >= h \/ ex <= 0 \/ ey <= 0 THEN NA
+          ELSE IF p.kind # "pixgeom" /\ g.crs = "none" THEN NA                                \* world regions need a CRS on both sides
+          ELSE IF p.kind = "wldbbox" /\ ~AxisAligned(g.A) THEN NA                             \* a bounding box is the rectangle only on axis-aligned grids
+          ELSE Pix(Tr(tx, ty), 1, Max2(1, ey - ty), Max2(1, ex - tx)))
     [] o.op = "pad" -> Pix(Tr(-p[1], -p[2]), 1, h + 2 * p[2], w + 2 * p[1])
     [] o.op = "pad_wh" -> Pix(Tr(0, 0), 1, AlignUp(h, p[2]), AlignUp(w, p[1]))
     [] o.op = "expand" -> Pix(Tr(0, 0), 1, h + p[1], w + p[2])
@@ -53,15 +68,17 @@ Eff(g, o) ==
                              [] p = -90 -> Wld(RotNum(g, <<0, 1, -1, 0>>, 1), 2, h, w)
                              [] p = 180 -> Wld(RotNum(g, <<-1, 0, 0, -1>>, 1), 2, h, w)
                              [] p = 53 -> Wld(RotNum(g, <<3, -4, 4, 3>>, 5), 10, h, w))
-    [] o.op = "zoom_out" -> IF p = 2 THEN Pix(<<2, 0, 0, 0, 2, 0>>, 1, Max2(1, CeilDiv(h, 2)), Max2(1, CeilDiv(w, 2)))
-                            ELSE Pix(<<1, 0, 0, 0, 1, 0>>, 2, 2 * h, 2 * w)                                   \* factor 1/2
+    [] o.op = "zoom_out" -> IF p = 1 THEN Pix(<<1, 0, 0, 0, 1, 0>>, 2, 2 * h, 2 * w)                                   \* factor 1/2
+                            ELSE IF p = 10 THEN Pix(<<1, 0, 0, 0, 1, 0>>, 1, h, w)                                   \* factor 1.0
+                            ELSE Pix(<<p, 0, 0, 0, p, 0>>, 1, Max2(1, CeilDiv(h, p)), Max2(1, CeilDiv(w, p)))      \* factor 2, 3: shape rounded up
     [] o.op = "zoom_to" -> (LET hh == IF p = "tall" THEN 2 * h ELSE IF p = "half" THEN CeilDiv(h, 2) ELSE h
                                 ww == IF p = "wide" THEN 2 * w ELSE IF p = "half" THEN CeilDiv(w, 2) ELSE w IN
                             Pix(<<w * hh, 0, 0, 0, h * ww, 0>>, ww * hh, hh, ww))
     [] o.op = "zoom_to_n" -> (LET nmax == Max2(h, w) n == IF p = "double" THEN 2 * nmax ELSE CeilDiv(nmax, 2) IN    \* zoom_out(nmax / n)
                               Pix(<<nmax, 0, 0, 0, nmax, 0>>, n, Max2(1, CeilDiv(h * n, nmax)), Max2(1, CeilDiv(w * n, nmax))))
     [] o.op = "scaled_down" -> Pix(<<p, 0, 0, 0, p, 0>>, 1, CeilDiv(h, p), CeilDiv(w, p))
-    [] o.op = "buffered" -> IF AxisAligned(g.A) THEN Pix(Tr(-2, -1), 1, h + 2, w + 4) ELSE NA       \* 1.5 and 1.0 pixel sizes in world units
+    [] o.op = "buffered" ->      \* p = <<bx, by>> buffers in TENTHS of this box's own pixel size; whole pixels added per side = ceil(b - 0.1)
+         IF AxisAligned(g.A) THEN (LET nx == CeilDiv(p[1] - 1, 10) ny == CeilDiv(p[2] - 1, 10) IN Pix(Tr(-nx, -ny), 1, h + 2 * ny, w + 2 * nx)) ELSE NA
     [] o.op = "left" -> Pix(Tr(-w, 0), 1, h, w)
     [] o.op = "right" -> Pix(Tr(w, 0), 1, h, w)
     [] o.op = "top" -> Pix(Tr(0, -h), 1, h, w)
@@ -74,13 +91,20 @@ NewNum(g, e) == IF e.side = "pix" THEN AddT(ComposeNum(g.A, e.n), g.A, e.td) ELS
 Representable(g, e) == e.ok /\ Divisible(NewNum(g, e), e.td) /\ e.h >= 1 /\ e.w >= 1
 Apply(g, e) == [h |-> e.h, w |-> e.w, A |-> DivAll(NewNum(g, e), e.td), crs |-> g.crs]
 
-Ops == UNION { {[op |-> "crop", p |-> x] : x \in {"inner", "neg", "int", "intneg", "cols"}},
-               {[op |-> "pad", p |-> x] : x \in {<<1, 1>>, <<2, 1>>}}, {[op |-> "pad_wh", p |-> x] : x \in {<<4, 4>>, <<3, 2>>}},
-               {[op |-> "expand", p |-> <<1, 2>>]}, {[op |-> "translate_pix", p |-> x] : x \in {<<4, -2>>, <<1, 0>>}},
-               {[op |-> x, p |-> 0] : x \in {"flipx", "flipy", "buffered", "left", "right", "top", "bottom", "center_pixel"}},
-               {[op |-> "rotate", p |-> x] : x \in {90, -90, 180, 53}}, {[op |-> "zoom_out", p |-> x] : x \in {2, 1}},
+CropNames == {"inner", "neg", "int", "intneg", "cols", "full", "rows", "colint", "pix", "pixneg", "rowcols"}
+Regions == { <<1, 1, 7, 5>>, <<5, 3, 11, 9>>, <<-3, -5, 6, 6>>, <<2, 6, 63, 7>>, <<9, 1, 10, 2>> }      \* quarter pixels, never on a pixel edge
+RegionKinds == {"pixgeom", "wldgeom", "wldbbox", "geobox"}
+Ops == UNION { {[op |-> "crop", p |-> x] : x \in CropNames},
+               {[op |-> "crop_region", p |-> [kind |-> k, r |-> r]] : k \in RegionKinds, r \in Regions},
+               {[op |-> "pad", p |-> x] : x \in {<<1, 1>>, <<2, 1>>, <<2, 0>>, <<0, 1>>, <<0, 0>>}},
+               {[op |-> "pad_wh", p |-> x] : x \in {<<4, 4>>, <<3, 2>>, <<1, 1>>, <<2, 1>>, <<16, 16>>}},
+               {[op |-> "expand", p |-> x] : x \in {<<1, 2>>, <<0, 0>>, <<-1, 0>>}},
+               {[op |-> "translate_pix", p |-> x] : x \in {<<4, -2>>, <<1, 0>>, <<0, 0>>, <<0, 3>>}},
+               {[op |-> x, p |-> 0] : x \in {"flipx", "flipy", "left", "right", "top", "bottom", "center_pixel"}},
+               {[op |-> "buffered", p |-> x] : x \in {<<15, 10>>, <<10, 10>>, <<0, 10>>, <<5, 0>>, <<11, 1>>}},
+               {[op |-> "rotate", p |-> x] : x \in {90, -90, 180, 53}}, {[op |-> "zoom_out", p |-> x] : x \in {2, 1, 3, 10}},
                {[op |-> "zoom_to", p |-> x] : x \in {"tall", "wide", "half"}}, {[op |-> "zoom_to_n", p |-> x] : x \in {"double", "halve"}},
-               {[op |-> "scaled_down", p |-> x] : x \in {2, 3}}, {[op |-> "mul", p |-> x] : x \in {"scale2", "shift"}},
+               {[op |-> "scaled_down", p |-> x] : x \in {2, 3, 4}}, {[op |-> "mul", p |-> x] : x \in {"scale2", "shift"}},
                {[op |-> "rmul", p |-> x] : x \in {"scale2", "shift"}} }
 Coverers == {"pad", "pad_wh", "zoom_out", "scaled_down", "buffered", "zoom_to_n"}
 
